@@ -62,12 +62,22 @@ def rule_R20_1(ctx):
                    "a `_` that reaches the scope table or the per-pattern "
                    "name set declares something, or makes `[_, _]` a duplicate")
     n = 0
+    import inline
+    covered = set()
     for f in prog.hand_fns():
         if not f.module.startswith(BMOD[0]) or f.is_closure or f.from_expansion:
             continue
         tests = underscore_tests(f)
         if not tests:
             continue
+        # the scope accesses may sit in private helpers of the function that
+        # tests for `_` (`declare_name`/`assign_name` under `bind_next_name`):
+        # they are read in its view, and are thereby covered
+        fv = inline.view(prog, f)
+        if fv is not f and underscore_tests(fv):
+            covered |= set(inline.private_helpers(prog, f))
+            f = fv
+            tests = underscore_tests(fv)
         n += 1
         sw, eq_t, ne_t = tests[0]
         # equal edge returns Ok without side effects
@@ -108,7 +118,7 @@ def rule_R20_1(ctx):
             continue
         for c in f.calls():
             if not c.is_ptr and c.res in SCOPE_WRITERS:
-                if underscore_tests(f.root_fn()):
+                if underscore_tests(f.root_fn()) or f.root_fn().path in covered:
                     r.ok()
                 else:
                     r.fail("%s | scope write without `_` test" % f.path,
